@@ -39,6 +39,9 @@ CLAIMS = {
  "C19": ("who-may-write on the active set (single post-publication removal site) with edge-dominance by the nil-marker and no-handle conditions; dependence of the expired flag on the expiry predicate; guard structure and operand identity of the predicate's comparison; must-pass-through of the access stamp in every handle read under the lock; JSON tags from go/types; who-may-write on Declared restricted to the pre-publication region",
          "Structural necessary conditions, decided on all paths: a secret can leave the store only in the apply phase of a poll, only when the poll marked it expired and no handle exists; the mark is set only when the expiry predicate said so; the predicate can be true only for undeclared entries with a positive expiry age and then compares store-clock minus the entry's last access with the age, strictly; every read stamps the entry it returns; the stamp is persisted and the declaration is not; only configured names are ever marked declared, and only by the constructor. Does not decide clock arithmetic over histories.",
          "time.Time.Sub / time.Unix as documented", "4/C19"),
+ "C15": ("constant capacity of every watcher channel and non-blocking send shape of notify; dominance of notify by the install of the same name inside one critical section; value-flow of the registered watcher's handle and of NewUpdater's initial read; lock-set discipline on Updater fields; edge-dominance and load/store ordering of rebuild, Close and err in Updater.Get",
+         "Structural necessary conditions, decided on all paths: notifications are level-triggered (buffered >= 1, never blocking), sent only after the new value is installed and under the same lock, for the watchers of that name; a watcher wraps the live handle of the name it is registered under and an updater's first value is read after registration; Updater state is guarded by its mutex; Get rebuilds only when signalled, replaces and closes only on success, closes only the previous value and at most once, always records the outcome, and returns the field's current value. Does not decide sequences of values over histories.",
+         "buffered channel + non-blocking send keeps one pending notification", "4/C15"),
  "C03": ("typestate on SSA CFG paths (mutation => save => tested error before any return), value-flow of the bytes handed to the file writer, edge-dominance on the open path, JSON wire-signature computed from go/types against the frozen v1 signature, reader/writer sibling agreement",
          "Structural necessary conditions, decided on all paths: no mutator of the persistent state can return without having called the file-writing save and tested its error; what is saved is the live map, wrapped as documented; opening writes only when the file does not exist; the v1 wire layout (keys, encodings, AEAD contexts, key template, schema constant) is unchanged and reader and writer agree. Does not decide state equality after arbitrary histories nor decoding of real old files.",
          "encoding/json encodes according to the computed shape; tink keyset reader/writer are inverse; the v1 layout is the one documented on db.kv", "4/C03"),
